@@ -103,12 +103,14 @@ theorem replayOne_memFiled (r : WalRec) (s : Store) (hf : MemFiled s) : MemFiled
               rfl
         · split
           · split
-            · exact h1
-            · exact h1
-          · split
-            · exact h1
-            · refine h1.set (v := ⟨_, true⟩) ?_ rfl
-              rfl
+            · split
+              · exact h1
+              · exact h1
+            · split
+              · exact h1
+              · refine h1.set (v := ⟨_, true⟩) ?_ rfl
+                rfl
+          · exact h1
   · exact hf0
 /-- the redo of a log keeps the cache filed -/
 theorem replayAll_memFiled (log : List WalRec) (s : Store) (hf : MemFiled s) :
